@@ -51,6 +51,7 @@ class State(object):
         s.strsrc = dict(self.strsrc)
         s.contains = set(self.contains)
         s.prefixof = dict(getattr(self, "prefixof", {}))
+        s.lenof = dict(getattr(self, "lenof", {}))
         s.dead = self.dead
         return s
 
@@ -75,6 +76,8 @@ def join(a, b):
     s.contains = a.contains & b.contains
     pa, pb = getattr(a, "prefixof", {}), getattr(b, "prefixof", {})
     s.prefixof = {k: v for k, v in pa.items() if pb.get(k) == v}
+    la, lb = getattr(a, "lenof", {}), getattr(b, "lenof", {})
+    s.lenof = {k: v for k, v in la.items() if lb.get(k) == v}
     return s
 
 
@@ -178,6 +181,7 @@ class Analyzer(object):
     def _replace(self, st, new):
         st.lists, st.opt, st.dicts, st.elems, st.strsrc, st.contains, st.dead = new.lists, new.opt, new.dicts, new.elems, new.strsrc, new.contains, new.dead
         st.prefixof = dict(getattr(new, "prefixof", {}))
+        st.lenof = dict(getattr(new, "lenof", {}))
 
     # ------------------------------------------------------------------
     def callee(self, call):
@@ -237,6 +241,15 @@ class Analyzer(object):
             if not hasattr(st, "prefixof"):
                 st.prefixof = {}
             st.prefixof.pop(name, None)
+            # n = len(x): n stands for the length of the list x until either is rebound
+            if not hasattr(st, "lenof"):
+                st.lenof = {}
+            st.lenof.pop(name, None)
+            for k in [k for k, v in st.lenof.items() if v == name]:
+                st.lenof.pop(k)
+            if isinstance(value, ast.Call) and isinstance(value.func, ast.Name) and value.func.id == "len" and len(value.args) == 1 and isinstance(value.args[0], ast.Name) and value.args[0].id in st.lists:
+                st.lenof[name] = value.args[0].id
+                return
             # name = next((s for s in X if s.startswith(C)), None): when truthy, name contains C
             if isinstance(value, ast.Call) and isinstance(value.func, ast.Name) and value.func.id == "next" and value.args and isinstance(value.args[0], ast.GeneratorExp):
                 g = value.args[0]
@@ -444,10 +457,18 @@ class Analyzer(object):
             l, r = test.left, test.comparators[0]
             # len(x) <op> k
             lenvar = None
-            if isinstance(l, ast.Call) and isinstance(l.func, ast.Name) and l.func.id == "len" and l.args and isinstance(l.args[0], ast.Name) and isinstance(r, ast.Constant) and isinstance(r.value, int):
-                lenvar, kk, oper = l.args[0].id, r.value, op
-            elif isinstance(r, ast.Call) and isinstance(r.func, ast.Name) and r.func.id == "len" and r.args and isinstance(r.args[0], ast.Name) and isinstance(l, ast.Constant) and isinstance(l.value, int):
-                lenvar, kk = r.args[0].id, l.value
+            lenof = getattr(st, "lenof", {})
+
+            def _len_operand(e):
+                if isinstance(e, ast.Call) and isinstance(e.func, ast.Name) and e.func.id == "len" and e.args and isinstance(e.args[0], ast.Name):
+                    return e.args[0].id
+                if isinstance(e, ast.Name) and e.id in lenof:
+                    return lenof[e.id]
+                return None
+            if _len_operand(l) is not None and isinstance(r, ast.Constant) and isinstance(r.value, int) and not isinstance(r.value, bool):
+                lenvar, kk, oper = _len_operand(l), r.value, op
+            elif _len_operand(r) is not None and isinstance(l, ast.Constant) and isinstance(l.value, int) and not isinstance(l.value, bool):
+                lenvar, kk = _len_operand(r), l.value
                 oper = {ast.Lt: ast.Gt, ast.Gt: ast.Lt, ast.LtE: ast.GtE, ast.GtE: ast.LtE}.get(type(op), type(op))()
             if lenvar is not None and lenvar in st.lists:
                 lo, hi = st.lists[lenvar]
